@@ -125,6 +125,28 @@ def run(ctx):
                 if gz and r.chance(1, 3):
                     content = mutate(r, content, (0, len(content)))
                 raw_cases.append((fname, content, pre + ['--file', '@' + fname] + argv, kind + ('-gz' if gz else ''), ext))
+    # deterministic header values: every combination of the format bits of sector 1 byte 6 on a valid sector dump,
+    # and the count/encoding fields of the flux container headers
+    for (bname2, bdata2, _) in bases:
+        ext2 = bname2[bname2.index('.'):]
+        if ext2 in ('.ssd', '.sdd', '.dsd'):
+            for bits in range(16):
+                b = bytearray(bdata2)
+                b[256 + 6] = (b[256 + 6] & 0xF0) | bits
+                for cmd in (['cat'], ['info', '*.*'], ['free']):
+                    raw_cases.append(('b%d%s' % (bits, ext2), bytes(b), ['--file', '@b%d%s' % (bits, ext2)] + cmd, 'format-bits', ext2))
+        if ext2 == '.hfe':
+            for (off, vals) in ((9, [0, 1, 255]), (10, [0, 2, 3, 255]), (11, [1, 3, 4, 0xFF]), (22, [0, 1]), (23, [0, 1, 2, 3, 0xFF]), (8, [1, 255]), (18, [0, 0xFF]), (19, [0xFF])):
+                for v in vals:
+                    b = bytearray(bdata2)
+                    b[off] = v
+                    raw_cases.append(('h%d_%d.hfe' % (off, v), bytes(b), ['--file', '@h%d_%d.hfe' % (off, v), 'cat'], 'header-field', ext2))
+        if ext2 == '.mfm':
+            for (off, vals) in ((7, [0, 1, 255]), (8, [1, 255]), (9, [0, 2, 3, 255]), (14, [0, 3, 5]), (15, [0, 0x12, 0xFF]), (18, [0x80, 0xFF])):
+                for v in vals:
+                    b = bytearray(bdata2)
+                    b[off] = v
+                    raw_cases.append(('x%d_%d.mfm' % (off, v), bytes(b), ['--file', '@x%d_%d.mfm' % (off, v), 'cat'], 'header-field', ext2))
     # flux tracks whose sectors are not 256 bytes long (size codes 0, 2, 3), in every position of the track
     for (nm, mfm) in (('z.hfe', False), ('z.mfm', True), ('w.hfe', True)):
         for sizes in ([1024, 256, 256], [256, 512, 256], [256, 256, 128], [1024], [512, 512], [128, 256], [128], [256, 1024]):
